@@ -23,9 +23,9 @@ type Spec struct {
 	Reserve int
 	// FolderReserve / DataReserve: cbCFFolder / cbCFData (non-zero filler bytes).
 	FolderReserve, DataReserve int
-	SetID                     uint16
-	LongName                  bool // 200-character member names
-	ZeroChecksums             bool // CFDATA.csum = 0 ("no checksum", allowed by the format)
+	SetID                      uint16
+	LongName                   bool // 200-character member names
+	ZeroChecksums              bool // CFDATA.csum = 0 ("no checksum", allowed by the format)
 }
 
 func (s Spec) Name() string {
@@ -207,13 +207,13 @@ func Build(s Spec) []byte {
 
 // Parsed is what the independent reader extracts.
 type Parsed struct {
-	TotalSize   int
-	Flags       uint16
-	HeaderRes   int
-	Files       []ParsedFile
-	FolderData  [][]byte
-	SigOffset   int // reserve-area signature pointer (offset, size) if the reserve is 20 bytes
-	SigSize     int
+	TotalSize  int
+	Flags      uint16
+	HeaderRes  int
+	Files      []ParsedFile
+	FolderData [][]byte
+	SigOffset  int // reserve-area signature pointer (offset, size) if the reserve is 20 bytes
+	SigSize    int
 }
 
 type ParsedFile struct {
